@@ -6,6 +6,7 @@ import (
 	"time"
 
 	"github.com/massnetorg/mass-core/blockchain"
+	"github.com/massnetorg/mass-core/consensus"
 	"github.com/massnetorg/mass-core/massutil"
 	"github.com/massnetorg/mass-core/wire"
 	"massnet.org/mass-wallet/config"
@@ -56,6 +57,34 @@ type World struct {
 	Ops       []string
 	// dispositions applied to rolled-back wallet transactions (for the fingerprint)
 	Disp []string
+	// Avoid: outpoints random transactions must not spend (inputs of pending transactions)
+	Avoid map[wire.OutPoint]bool
+	// curHeight: height of the block being built (script choice depends on the fork height)
+	curHeight uint64
+}
+
+// PayScriptAt draws an output script for a transaction mined at (or pending for) the height.
+func (w *World) PayScriptAt(h [32]byte, height uint64) []byte {
+	w.curHeight = height
+	return w.payScript(h, true)
+}
+
+func (w *World) WalletHashPub() ([32]byte, bool) { return w.walletHash() }
+func (w *World) StrangerPub() [32]byte           { return w.stranger() }
+func (w *World) BlockDesc(b *Block) string       { return w.blockDesc(b) }
+
+// BuildBlockAvoiding / ForkAvoiding: as BuildBlock / Fork, but random transactions never spend
+// an outpoint of avoid.
+func (w *World) BuildBlockAvoiding(parent *Block, carry []*wire.MsgTx, nRandom int, avoid map[wire.OutPoint]bool) (*Block, error) {
+	w.Avoid = avoid
+	defer func() { w.Avoid = nil }()
+	return w.BuildBlock(parent, carry, nRandom)
+}
+
+func (w *World) ForkAvoiding(depth, length, nRandom int, avoid map[wire.OutPoint]bool) (*Block, bool, error) {
+	w.Avoid = avoid
+	defer func() { w.Avoid = nil }()
+	return w.Fork(depth, length, nRandom)
 }
 
 func (w *World) Logf(f string, a ...interface{}) {
@@ -156,10 +185,12 @@ func (w *World) payScript(h [32]byte, toWallet bool) []byte {
 	if o.Staking {
 		kinds = append(kinds, 1)
 	}
-	if o.BindingOld {
+	// consensus: 20-byte targets only before the MASSIP0002 warm-up height, 22-byte ones from it on
+	afterWarmUp := w.curHeight >= consensus.MASSIP0002WarmUpHeight
+	if o.BindingOld && !afterWarmUp {
 		kinds = append(kinds, 2)
 	}
-	if o.BindingNew {
+	if o.BindingNew && afterWarmUp {
 		kinds = append(kinds, 3)
 	}
 	k := 0
@@ -200,7 +231,7 @@ func (w *World) spendable(v *View, wallets bool) []*Out {
 	owned := w.AllOwned()
 	var outs []*Out
 	for _, o := range v.Outs {
-		if o.Spent || !o.HasHash || o.Value <= 0 {
+		if o.Spent || !o.HasHash || o.Value <= 0 || w.Avoid[o.OP] {
 			continue
 		}
 		_, isW := owned[o.Hash]
@@ -253,7 +284,7 @@ func (w *World) RandomTx(v *View, height uint64, inBlock []*wire.MsgTx) *wire.Ms
 		ph := ptx.TxHash()
 		for i := range ptx.TxOut {
 			o := v.Outs[wire.OutPoint{Hash: ph, Index: uint32(i)}]
-			if o != nil && !o.Spent && o.Value > 0 && !o.Coinbase && o.Maturity() == 0 {
+			if o != nil && !o.Spent && o.Value > 0 && !o.Coinbase && o.Maturity() == 0 && !w.Avoid[o.OP] {
 				ins = append(ins, o)
 				break
 			}
@@ -334,6 +365,7 @@ func (w *World) BuildBlock(parent *Block, carry []*wire.MsgTx, nRandom int) (*Bl
 		return nil, err
 	}
 	height := parent.Height + 1
+	w.curHeight = height
 	var cbOuts []*wire.TxOut
 	nOut := w.R.Range(1, 3)
 	for i := 0; i < nOut; i++ {
